@@ -375,13 +375,23 @@ func checkC20(c *Ctx, r *Report) {
 		r.Fn(c.FnName(f))
 		rets := returnsOf(f)
 		if len(rets) != 1 || hasLoop(f) {
-			r.Unk("bcd.Decode|shape", f.Pos(), "not a single expression")
+			if ok, why := bcdByEntailment(c, f); ok {
+				r.OK("bcd.Decode|normal form", f.Pos(), "10·⌊b/16⌋ + (b mod 16) entailed on every path")
+			} else {
+				r.Unk("bcd.Decode|shape", f.Pos(), "not a single expression, and not entailed: "+why)
+			}
 		} else {
 			p := ssa.Value(f.Params[0])
 			got, err := polyOfIn(f, rets[0].Results[0], func(v ssa.Value) string { return bitfieldAtomIn(f, v, p) })
 			want := polyAdd(polyMul(polyConst(10), polyAtom("b[7:4]")), polyAtom("b[3:0]"), 1)
 			if err != nil {
-				r.Bad("bcd.Decode|normal form", f.Pos(), "not a polynomial over bit-fields of the argument: "+err.Error())
+				// not written as masks and shifts of the argument: ask engine E1 (modular arithmetic
+				// kept exact) whether the value returned is 10·⌊b/16⌋ + b mod 16 on every path
+				if ok, why := bcdByEntailment(c, f); ok {
+					r.OK("bcd.Decode|normal form", f.Pos(), "10·⌊b/16⌋ + (b mod 16) entailed on every path")
+				} else {
+					r.Bad("bcd.Decode|normal form", f.Pos(), "not a polynomial over bit-fields of the argument ("+err.Error()+") and not entailed to be 10·⌊b/16⌋ + b mod 16: "+why)
+				}
 			} else {
 				r.Check(got.String() == want.String(), "bcd.Decode|normal form", f.Pos(), got.String(), "bcd.Decode computes "+got.String()+", definition: "+want.String())
 			}
